@@ -408,6 +408,7 @@ C08c(g, o, g2) ==   \* while another side is open everything of the mailbox stay
       others == {r \in MbSides(o.db, i) : r.side # cn.side /\ r.opened} IN
   (C08ante(g, o) /\ others # {}) =>
        /\ HasMb(o.db2, a, i)
+       /\ \A r \in MbSides(o.db2, i) : r.side = cn.side => ~r.opened     \* the closer's own side is recorded closed
        /\ \A r \in others : r \in o.db2.mbs
        /\ MsgsOf(o.db2, a, i) = MsgsOf(o.db, a, i)
        /\ {r \in o.db2.np : r.mbox = i} = {r \in o.db.np : r.mbox = i}
